@@ -208,9 +208,9 @@ class PackingSpace(Space):
             raise ValueError(f"x.shape={x.shape}, but must be {needed_shape}.")
 
         bin_width: Final[int] = check_int_range(
-            inst.bin_width, "bin_width", 1, 1_000_000_000)
+            inst.bin_width, "bin_width", 1, 1_000_000_000_000)
         bin_height: Final[int] = check_int_range(
-            inst.bin_height, "bin_height", 1, 1_000_000_000)
+            inst.bin_height, "bin_height", 1, 1_000_000_000_000)
 
         bins: Final[set[int]] = set()
         items: Final[Counter[int]] = Counter()
